@@ -875,6 +875,8 @@ class Repo(object):
                 return float(args[0])
             if n == 'len' and len(args) == 1:
                 return len(args[0])
+            if n == 'range' and 1 <= len(args) <= 3 and all(isinstance(a, int) for a in args):
+                return range(*args)
             if n == 'min':
                 return min(*args)
             if n == 'max':
